@@ -161,9 +161,16 @@ def wl_big_loaded_tables(ctx, rng, case):
         data = bytes(f)
         from pathlib import Path as _Path
 
-        for lname, ld in (("frombytes", lambda: cls.frombytes(data)), ("filepath", lambda: cls(filepath=p)), ("filepath(Path)", lambda: cls(filepath=_Path(p)))):
+        for lname, ld in (("frombytes", lambda: cls.frombytes(data)), ("filepath", lambda: cls(filepath=p)), ("filepath(Path)", lambda: cls(filepath=_Path(p))),
+                          ("frombytes(memoryview)", lambda: cls.frombytes(memoryview(data))), ("frombytes(bytearray)", lambda: cls.frombytes(bytearray(data)))):
             try:
-                g = ld()
+                try:
+                    g = ld()
+                except TypeError:
+                    if "(" not in lname:
+                        raise
+                    ctx.count("buffer_loaders_refused")  # a loader may refuse a bytes-like buffer; if it accepts one it must load the same table
+                    continue
                 contracts.register(g, None, 2, counting)
                 g.fingerprint_size = 4
             except contracts.InvariantBroken as e:
